@@ -51,7 +51,8 @@ def generate(rng, tier, stats):
             conds = rs[0]["status"].setdefault("conditions", [])
             conds[:] = [x for x in conds if x["type"] != "Active"]
             k = rng.choice([0, 1, 2, 3])
-            conds.append(K.cond("Active", "True", trans=-max(0, k * interval + rng.choice([-1, 0, 1]))))   # never in the future
+            # (a False Active condition - the rollout was frozen or paused - does not start the ramp: t = 0)
+            conds.append(K.cond("Active", rng.choice(["True", "True", "True", "False"]), trans=-max(0, k * interval + rng.choice([-1, 0, 1]))))   # never in the future
         # further reconciles at arbitrary times
         ops = [c["ops"][0]]
         for _ in range(rng.choice([2, 3, 4])):
